@@ -20,7 +20,7 @@ sys.path.insert(0, HERE)
 os.environ["VERIF_NO_EVIDENCE"] = "1"
 from sa import core                                   # noqa: E402
 from sa.report import Check                           # noqa: E402
-from sa.roles import renamable, _own_nodes, _flatten  # noqa: E402
+from sa.roles import renamable, _own_nodes, _flatten, single_use_temps, _Inline, _CanonExpr  # noqa: E402
 
 seen = []
 orig = core.Module.ev
@@ -59,10 +59,15 @@ class _Abstract(ast.NodeTransformer):
         return node
 
 
+TEMPS = {}
+
+
 def shape(node, names):
     import copy
-    txt = ast.unparse(_Abstract(names).visit(copy.deepcopy(node)))
-    if len(txt) > 400:
+    node = _Inline(TEMPS).visit(copy.deepcopy(node)) if TEMPS else copy.deepcopy(node)
+    node = _CanonExpr().visit(node)
+    txt = ast.unparse(_Abstract(names).visit(node))
+    if len(txt) > 4000:
         return None
     pat = re.escape(txt).replace(TOKEN, r"\w+")
     return "^" + pat + "$"
@@ -79,6 +84,8 @@ for rel, qual in seen:
     loc = renamable(m.text, fn)
     if not loc:
         continue
+    TEMPS.clear()
+    TEMPS.update(single_use_temps(fn))
     # bindings in source order
     binds = []      # (lineno, col, name, spec without index for nth)
     for node in _own_nodes(fn):
